@@ -15,6 +15,7 @@ import (
 	"os"
 	"path/filepath"
 	"reflect"
+	"runtime"
 	"sort"
 	"strings"
 	"sync"
@@ -58,10 +59,157 @@ type gate struct {
 var gates sync.Map // *sync.Mutex -> *gate
 var hookOnce sync.Once
 
+// autoRecorder collects, in one total order, the file-system operations the harness performs
+// (logged under the cache lock, before the system call) and what the hooks observe in the
+// cache: events reaching the watcher goroutine, and snapshots of the state at the beginning of
+// every critical section and at the end of the watcher's and Configure's.  The trace is
+// validated by TLC against spec/CacheAutoTrace.tla.
+type autoRecorder struct {
+	mu      sync.Mutex
+	events  []map[string]interface{}
+	w       *autoWorld
+	stopped bool
+	nstart  int
+	gor     map[int64]int // goroutine id -> index of the watcher it was started with
+}
+
+var recorders sync.Map // *sync.Mutex -> *autoRecorder
+var recCaches sync.Map // *sync.Mutex -> *cdi.Cache
+
+func goid() int64 {
+	buf := make([]byte, 64)
+	n := runtime.Stack(buf, false)
+	var id int64
+	fmt.Sscanf(string(buf[:n]), "goroutine %d ", &id)
+	return id
+}
+
+func (r *autoRecorder) log(ev map[string]interface{}) {
+	r.mu.Lock()
+	if !r.stopped {
+		r.events = append(r.events, ev)
+	}
+	r.mu.Unlock()
+}
+
+func (r *autoRecorder) dirID(p string) (string, string) {
+	rel, err := filepath.Rel(filepath.Join(r.w.root, "dirs"), p)
+	if err != nil {
+		return "?", "?"
+	}
+	parts := strings.Split(rel, string(os.PathSeparator))
+	if len(parts) == 2 && parts[1] == "d" {
+		return parts[0], "."
+	}
+	if len(parts) == 3 && parts[1] == "d" {
+		return parts[0], parts[2]
+	}
+	return "?", rel
+}
+
+func (r *autoRecorder) snapshot(c *cdi.Cache) map[string]interface{} {
+	ix := cdi.VerifIndex(c)
+	tracked := map[string]string{"A": "no", "B": "no", "C": "no"}
+	for p, ok := range ix["tracked"].(map[string]bool) {
+		if d, n := r.dirID(p); n == "." {
+			tracked[d] = map[bool]string{true: "t", false: "f"}[ok]
+		}
+	}
+	errs := []string{}
+	for _, p := range ix["dirErrors"].([]string) {
+		if d, n := r.dirID(p); n == "." {
+			errs = append(errs, d)
+		}
+	}
+	sort.Strings(errs)
+	idx := map[string]int{"A": 0, "B": 0, "C": 0}
+	for q, v := range ix["devices"].(map[string]interface{}) {
+		env, _ := v.(map[string]interface{})["env"].([]string)
+		for _, d := range []string{"A", "B", "C"} {
+			if q == autoKind(d)+"=dev" {
+				idx[d] = atoi(envVal(env, "V"))
+			}
+		}
+	}
+	return map[string]interface{}{"tracked": tracked, "errs": errs, "idx": idx, "auto": ix["autoRefresh"], "watcher": ix["watcher"]}
+}
+
+func opKind(s string) string {
+	switch {
+	case strings.Contains(s, "REMOVE"):
+		return "remove"
+	case strings.Contains(s, "RENAME"):
+		return "rename"
+	case strings.Contains(s, "WRITE"):
+		return "write"
+	case strings.Contains(s, "CREATE"):
+		return "create"
+	}
+	return strings.ToLower(s)
+}
+
+func recordHook(point string, a []interface{}) {
+	var key *sync.Mutex
+	var cache *cdi.Cache
+	switch v := a[0].(type) {
+	case *sync.Mutex:
+		key = v
+	case *cdi.Cache:
+		key, cache = &v.Mutex, v
+	}
+	rv, ok := recorders.Load(key)
+	if !ok {
+		return
+	}
+	r := rv.(*autoRecorder)
+	switch point {
+	case "watch.start":
+		// the model numbers watchers (and their goroutines) by configuration
+		r.mu.Lock()
+		r.gor[goid()] = r.nstart
+		r.mu.Unlock()
+	case "watch.prelock":
+		r.mu.Lock()
+		w := r.gor[goid()]
+		r.mu.Unlock()
+		d, n := r.dirID(a[1].(string))
+		r.log(map[string]interface{}{"ev": "recv", "w": w, "d": d, "n": n, "op": opKind(a[2].(string))})
+	case "watch.handled":
+		r.mu.Lock()
+		w := r.gor[goid()]
+		r.mu.Unlock()
+		if c, ok := recCaches.Load(key); ok {
+			r.log(map[string]interface{}{"ev": "handled", "w": w, "st": r.snapshot(c.(*cdi.Cache))})
+		}
+	case "op":
+		name := a[1].(string)
+		if name == "Configure" {
+			r.mu.Lock()
+			r.nstart++ // configurations so far (the one that switched auto-refresh on is number 1)
+			r.mu.Unlock()
+		}
+		if name != "NewCache" {
+			r.log(map[string]interface{}{"ev": "op", "name": name, "st": r.snapshot(cache)})
+		}
+	case "configure.done":
+		ix := cdi.VerifIndex(cache)
+		dirs := []string{}
+		for _, p := range ix["dirs"].([]string) {
+			d, _ := r.dirID(p)
+			dirs = append(dirs, d)
+		}
+		r.log(map[string]interface{}{"ev": "configured", "dirs": dirs, "auto": ix["autoRefresh"], "st": r.snapshot(cache)})
+	}
+}
+
 func installWatchHook() {
 	hookOnce.Do(func() {
 		cdi.VerifHook = func(point string, a ...interface{}) {
-			if len(a) == 0 || (point != "watch.prelock" && point != "watch.handled") {
+			if len(a) == 0 {
+				return
+			}
+			recordHook(point, a)
+			if point != "watch.prelock" && point != "watch.handled" {
 				return
 			}
 			if g, ok := gates.Load(a[0]); ok {
@@ -248,7 +396,7 @@ func sameView(a, b autoView, dirErrs bool) bool {
 }
 
 // runAutoOnce executes the behaviour with one pacing; returns "" when the cache converged.
-func runAutoOnce(row *autoRow, pacing int, r *rand.Rand, bad bool) (string, autoView, autoView, error) {
+func runAutoOnce(row *autoRow, pacing int, r *rand.Rand, bad bool, rec *autoRecorder) (string, autoView, autoView, error) {
 	w := &autoWorld{root: mkScratch("auto"), bad: bad}
 	defer os.RemoveAll(w.root)
 	_ = os.MkdirAll(filepath.Join(w.root, "dirs"), 0o755)
@@ -267,13 +415,31 @@ func runAutoOnce(row *autoRow, pacing int, r *rand.Rand, bad bool) (string, auto
 	}
 	dirs := append([]string(nil), init.Nd...)
 	auto := true
-	cache, _ := cdi.NewCache(cdi.WithSpecDirs(w.paths(dirs)...), cdi.WithAutoRefresh(true))
+	// the recorder has to be in place before the cache starts its watcher goroutine: NewCache is
+	// split into a manual-mode creation and a Configure that switches auto-refresh on
+	cache, _ := cdi.NewCache(cdi.WithSpecDirs(w.paths(dirs)...), cdi.WithAutoRefresh(rec == nil))
 	g := &gate{tokens: make(chan struct{})}
 	gates.Store(&cache.Mutex, g)
+	if rec != nil {
+		rec.w, rec.gor = w, map[int64]int{}
+		recCaches.Store(&cache.Mutex, cache)
+		recorders.Store(&cache.Mutex, rec)
+		_ = cache.Configure(cdi.WithAutoRefresh(true))
+		rec.mu.Lock()
+		rec.events = []map[string]interface{}{{"ev": "init", "ex": append([]string{}, init.Ex...), "dirs": append([]string{}, dirs...)}}
+		rec.mu.Unlock()
+	}
 	defer func() {
+		if rec != nil {
+			rec.mu.Lock()
+			rec.stopped = true
+			rec.mu.Unlock()
+		}
 		g.open()
 		gates.Delete(&cache.Mutex)
 		_ = cache.Configure(cdi.WithAutoRefresh(false))
+		recorders.Delete(&cache.Mutex)
+		recCaches.Delete(&cache.Mutex)
 	}()
 	if pacing != 0 {
 		atomic.StoreInt32(&g.closed, 1)
@@ -301,7 +467,7 @@ func runAutoOnce(row *autoRow, pacing int, r *rand.Rand, bad bool) (string, auto
 				_, _ = cache.InjectDevices(&oci.Spec{}, autoKind("A")+"=dev")
 			}
 			continue
-		case "fetch", "recv", "recvdrop", "exit":
+		case "read", "fetch", "recv", "recvdrop", "exit":
 			if pacing == 1 {
 				time.Sleep(time.Duration(500+r.Intn(1500)) * time.Microsecond) // let the kernel and fsnotify deliver
 			}
@@ -319,7 +485,18 @@ func runAutoOnce(row *autoRow, pacing int, r *rand.Rand, bad bool) (string, auto
 			}
 		case "shortage":
 		default:
-			if err := w.do(a); err != nil {
+			var err error
+			if rec != nil {
+				// logged before the system call, both under the cache lock: whatever the operation causes
+				// comes later in the trace, and no scan can fall between the entry and the change
+				cache.Lock()
+				rec.log(map[string]interface{}{"ev": "fs", "a": a.A, "d": a.D, "n": a.N, "c": a.C})
+				err = w.do(a)
+				cache.Unlock()
+			} else {
+				err = w.do(a)
+			}
+			if err != nil {
 				return "", autoView{}, autoView{}, fmt.Errorf("file-system operation %s(%s,%s): %w", a.A, a.D, a.N, err)
 			}
 			if pacing == 0 {
@@ -329,6 +506,14 @@ func runAutoOnce(row *autoRow, pacing int, r *rand.Rand, bad bool) (string, auto
 		lastQuery = false
 	}
 	g.open()
+	if rec != nil {
+		// let the released handlers finish, then stop: the polling below is not part of the trace
+		time.Sleep(20 * time.Millisecond)
+		cache.ListDevices()
+		rec.mu.Lock()
+		rec.stopped = true
+		rec.mu.Unlock()
+	}
 	// what a fresh cache on the final directories returns
 	fresh, _ := cdi.NewCache(cdi.WithSpecDirs(w.paths(dirs)...), cdi.WithAutoRefresh(auto))
 	want := w.view(fresh, dirs)
@@ -356,6 +541,8 @@ func runAutoOnce(row *autoRow, pacing int, r *rand.Rand, bad bool) (string, auto
 	}
 }
 
+var traceDir string
+
 func replayAutoRow(idx int, line []byte, seed int64, col *collector, pacings []int) {
 	var row autoRow
 	if err := json.Unmarshal(line, &row); err != nil || len(row.Hist) == 0 {
@@ -381,7 +568,17 @@ func replayAutoRow(idx int, line []byte, seed int64, col *collector, pacings []i
 			r := rand.New(rand.NewSource(seed*7919 + int64(idx)*31 + int64(pacing)*7 + int64(at)))
 			var why string
 			var err error
-			pan, stack, hung := guarded(60*time.Second, func() { why, got, want, err = runAutoOnce(&row, pacing, r, idx%2 == 1) })
+			var rec *autoRecorder
+			if traceDir != "" && at == 0 && pacing != 2 {
+				rec = &autoRecorder{}
+			}
+			pan, stack, hung := guarded(60*time.Second, func() { why, got, want, err = runAutoOnce(&row, pacing, r, idx%2 == 1, rec) })
+			if rec != nil && pan == nil && !hung && err == nil {
+				rec.mu.Lock()
+				b, _ := json.Marshal(map[string]interface{}{"case": idx, "pacing": pacing, "events": rec.events})
+				rec.mu.Unlock()
+				_ = os.WriteFile(filepath.Join(traceDir, fmt.Sprintf("trace-%d-%d.json", idx, pacing)), b, 0o644)
+			}
 			steps++
 			if pan != nil {
 				col.add(Mismatch{Case: idx, Step: pacing, Props: append([]string{"C08"}, props...), What: "panic", Got: fmt.Sprint(pan), Note: stack, Row: json.RawMessage(line)})
@@ -422,6 +619,7 @@ func replayAutoMain(args []string) int {
 	var cf commonFlags
 	addCommon(fs, &cf)
 	pac := fs.String("pacings", "0,1,2", "pacings to run")
+	fs.StringVar(&traceDir, "trace-dir", "", "record the first execution of pacings 0 and 1 as traces for spec/CacheAutoTrace.tla")
 	_ = fs.Parse(args)
 	installWatchHook()
 	var pacings []int
